@@ -116,25 +116,30 @@ def session_store(prog: Prog):
 
 
 _import_cache: dict = {}
+_importing: set = set()
 
 
-def import_rules(ctx: Ctx, pid: str, mapping: dict[str, str]) -> None:
+def import_rules(ctx: Ctx, pid: str, mapping: dict[str, str], key_filter=None, key_map=None) -> None:
     """Clauses shared between properties: run property `pid`'s rules on the same program and take over the obligations of the rules in
-    `mapping` (their rule id -> the id under which this property reports them).  Results are cached per program, so chains of imports
-    are computed once."""
+    `mapping` (their rule id -> the id under which this property reports them).  Results are cached per program.  Imports are one level
+    deep: while a property's rules run *as an import* its own imports are skipped (they contribute nothing to the rules being taken over,
+    and two properties may import from each other)."""
     import importlib
     from dataclasses import replace
 
+    if getattr(ctx, "imported_run", False):
+        return
     key = (id(ctx.prog), pid)
     if key not in _import_cache:
         mod = importlib.import_module(f"sa.rules.{pid.lower()}")
         sub = Ctx(pid, ctx.tier, ctx.prog, ctx.repo)
+        sub.imported_run = True  # type: ignore[attr-defined]
         mod.rules(sub)
         _import_cache[key] = (sub.obligations, set(sub.analysed_functions))
     obs, touched = _import_cache[key]
     for o in obs:
-        if o.rule in mapping:
-            ctx.obligations.append(replace(o, rule=mapping[o.rule]))
+        if o.rule in mapping and (key_filter is None or key_filter(o)):
+            ctx.obligations.append(replace(o, rule=mapping[o.rule], key=key_map(o) if key_map else o.key))
     ctx.analysed_functions |= touched
 
 
